@@ -155,11 +155,16 @@ def eval_case(case):
             mass = [float, int, np.int64, np.float64][form](mass)
         rule = {'climb': SimpleFlightRules.CLIMB, 'cruise': SimpleFlightRules.CRUISE, 'descent': SimpleFlightRules.DESCEND}[c['ph']]
         where = f'{c["ph"]} FL {fl} (given as {fl} x FL_TO_METERS m) mass {mass!r} ({type(mass).__name__}) in the {c["ph"]} levels {fls} of table FL {c["fls"]} (rows listed {c["ord"]}, cruise ROCD residual {c["cz"]}, cruise lacks {c["cf"]} lowest / descent {c["dt"]} highest levels)'
+        state = AircraftState(altitude=fl * FL_TO_METERS, aircraft_mass=mass, true_airspeed=200.0, rate_of_climb=0.0)
         try:
-            p = pm.evaluate(AircraftState(altitude=fl * FL_TO_METERS, aircraft_mass=mass, true_airspeed=200.0, rate_of_climb=0.0), rule)
+            p = pm.evaluate(state, rule)
             refused = False
         except Exception as e:
             refused, err = True, f'{type(e).__name__}: {str(e)[:80]}'
+        # PerfTable.tla StateIsAValue: the state handed over is the caller's - after the evaluation it still says what it
+        # said (a symbolic mass stays symbolic: the same state may be put to another model, whose extreme masses differ)
+        if not (state.aircraft_mass is mass or state.aircraft_mass == mass) or state.altitude != fl * FL_TO_METERS or state.true_airspeed != 200.0 or state.rate_of_climb != 0.0:
+            return [('state-modified', f'{where}: after the evaluation the state handed over reads altitude {state.altitude}, mass {state.aircraft_mass!r}, TAS {state.true_airspeed}, ROCD {state.rate_of_climb}')]
         node = h >= 0 and h <= 2 * n - 2 and h % 2 == 0
         if refused != bool(o['refused']):
             if refused:
